@@ -77,9 +77,11 @@ func NewCrdIPAM(fipClient crd_clientset.Interface, informer crdInformer.Floating
 // AllocateSpecificIP allocate pod a specific IP.
 func (ci *crdIpam) AllocateSpecificIP(key string, ip net.IP, attr Attr) error {
 	ipStr := ip.String()
-	ci.cacheLock.RLock()
+	// hold the lock until the cache is synced as the other allocating functions do, otherwise ConfigurePool may replace
+	// the pools and caches in between and the ip is inserted into caches which it does not belong to any more
+	ci.cacheLock.Lock()
+	defer ci.cacheLock.Unlock()
 	spec, find := ci.unallocatedFIPs[ipStr]
-	ci.cacheLock.RUnlock()
 	if !find {
 		return fmt.Errorf("failed to find floating ip by %s in cache", ipStr)
 	}
@@ -88,9 +90,7 @@ func (ci *crdIpam) AllocateSpecificIP(key string, ip net.IP, attr Attr) error {
 		glog.Errorf("failed to create floatingIP %s: %v", ipStr, err)
 		return err
 	}
-	ci.cacheLock.Lock()
 	ci.syncCacheAfterCreate(allocated)
-	ci.cacheLock.Unlock()
 	return nil
 }
 
